@@ -184,6 +184,8 @@ func checkSecurityGeneratorState(c *core.Ctx) error {
 	if err != nil {
 		return err
 	}
+	// (f) a long-lived table that lets parsing / generation of a requirement skip work answers for every input the work reads
+	checkSkipMemoKeyCoversInputs(c, r, prog, skipMemoReviewed, pkgParser, pkgGen)
 	// (a)
 	gs := prog.Func(pkgGen, "Generator.generateSecurities")
 	if gs == nil {
